@@ -178,11 +178,14 @@ _X = [{'f1': None, 'f2': None, 'mode': 'disabled'}, {'f1': None, 'f2': None, 'mo
 _QS = _shards([None, 'key_arg', 'in_handler', 'out_handler', 'unser_value', 'discard_body'],
               [('key_arg', 'discard_op')], _QOPS, _X) + [{'f1': 'key_resolver', 'f2': None, 'first': _o('R')},
                                                          {'f1': 'force_body', 'f2': None, 'first': _o('A', 1)}]
-_TS = _shards([None] + FAULT_KINDS, [(a, b) for a in FAULT_KINDS for b in FAULT_KINDS if a < b], _TOPS,
-              _X + [{'f1': 'key_arg', 'f2': None, 'fail_save': True}, {'f1': 'discard_body', 'f2': None, 'copy': True}])
+_TOPS2 = [_o('A', 1), _o('D', 1), _o('R'), _o('H'), _o('N'), _o('O', 1), _o('U')]
+# thorough: single faults on programs <= 3, pairs of faults on programs <= 2, both over 7 opcode kinds
+_TS = _shards([None] + FAULT_KINDS, [], _TOPS2,
+              _X + [{'f1': 'key_arg', 'f2': None, 'fail_save': True}, {'f1': 'discard_body', 'f2': None, 'copy': True}]) + \
+      [dict(x, **{'b.L': 2}) for x in _shards([], [(a, b) for a in FAULT_KINDS for b in FAULT_KINDS if a < b], _TOPS2, [])]
 _W = {'f1': 'key_arg', 'f2': None, 'first': _o('A', 1)}
 _QB = {'L': 2, 'OPS': _QOPS, 'EXCSLOTS': [1], 'EXTRACTORS': [0, 1, 2, 3]}
-_TB = {'L': 3, 'OPS': _TOPS, 'EXCSLOTS': [0, 1, 4, 6], 'EXTRACTORS': [0, 1, 2, 3, 4, 5, 6]}
+_TB = {'L': 3, 'OPS': _TOPS2, 'EXCSLOTS': [1], 'EXTRACTORS': [0, 1, 2, 3, 4, 5, 6]}
 CONDITIONS = [
     {'fn': 'transparent', 'nontrivial': 'fault-fired',
      'what': 'decorated run vs undecorated twin under single faults and pairs at every step; sharded by (fault kinds, first opcode)',
@@ -204,6 +207,6 @@ CONDITIONS = [
      'what': 'metadata extractor succeeding / raising / returning junk on instance and class-level operations',
      'tiers': {'quick': {'bounds': _QB, 'timeout': 300, 'shards': [{'f1': None, 'f2': None, 'first': f} for f in [None, _o('A', 1), _o('O', 1)]],
                          'witness_shard': {'f1': None, 'f2': None, 'first': _o('A', 1)}},
-               'thorough': {'bounds': _TB, 'timeout': 3000, 'shards': [{'f1': None, 'f2': None, 'first': f} for f in [None] + _TOPS],
+               'thorough': {'bounds': _TB, 'timeout': 3000, 'shards': [{'f1': None, 'f2': None, 'first': f} for f in [None] + _TOPS2],
                             'witness_shard': {'f1': None, 'f2': None, 'first': _o('A', 1)}}}},
 ]
